@@ -187,7 +187,8 @@ Theorem C05_forgery_inert_refuted_for_malformed_datagrams :
 Proof. exact malformed_not_inert_stmt. Qed.
 Print Assumptions C05_forgery_inert_refuted_for_malformed_datagrams.
 
-(* with fixes/C05-udp-garbage-drop.patch ([cf_udp_garbage_drop]) an empty or unparsable UDP
+(* ABOUT A VARIANT THAT IS NOT THE CODE IN /repo (hardening patch proposed, not applied):
+   with fixes/C05-udp-garbage-drop.patch ([cf_udp_garbage_drop]) an empty or unparsable UDP
    datagram is inert as well, so on UDP EVERY datagram that is not an authentic response changes
    nothing but cookie bookkeeping (this theorem + C05_forgery_inert + C05_foreign_source_inert);
    on TCP an unparsable frame still terminates the connection *)
